@@ -1,5 +1,37 @@
-import ErdosVerif.Model.Sim
+import ErdosVerif.Lemmas.SimInv
+/-!
+# C03 — simulated execution takes exactly the chosen strategy's runtime (clock part)
+-/
 namespace ErdosVerif.C03
-open ErdosVerif.Model
-theorem placeholder : ET.taskFinished = 3 := rfl
+open ErdosVerif.Model ErdosVerif.Model.Sim
+
+/-- **The simulated clock never moves backwards**: in every run (any policy, any draws,
+any number of iterations, normal or aborted) the successive clock values are
+non-decreasing, none exceeds the current clock, and the clock is never negative. -/
+theorem clock_monotone (s0 : SimS) (fuel : Nat) (h : Inv s0) :
+    ((simulate s0 fuel).2.log.toList.filterMap clockOf).Pairwise (· ≤ ·) ∧
+    (∀ c ∈ (simulate s0 fuel).2.log.toList.filterMap clockOf, c ≤ (simulate s0 fuel).2.now) ∧
+    0 ≤ (simulate s0 fuel).2.now :=
+  (simulate_inv s0 fuel h).2
+
+/-- A step backwards is refused: `__step` with a negative step size raises and leaves
+the clock where it was. -/
+theorem negative_step_refused (s : SimS) (dt : Int) (hdt : dt < 0) :
+    ((ExceptT.run (step dt)).run s) = (.error .valueError, s) := by
+  simp [step, hdt, ExceptT.run, StateT.run, throw, throwThe, MonadExceptOf.throw, ExceptT.mk, bind, ExceptT.bind,
+    ExceptT.bindCont, pure, StateT.pure, StateT.bind]
+
+/-- `Task.step` reports completion exactly when the executed time reaches the remaining
+time, and then records `now + remaining` as the last step time (the completion time). -/
+theorem step_completes_exactly (t : TaskS) (now dt r : Int) (hs : t.state = .running) (hst : t.start ≤ now + dt)
+    (hr : t.remaining = some r) (hpos : r ≠ 0) (hl : t.lastStep = now) :
+    ((t.doStep now dt).2 = true ↔ r ≤ dt) ∧
+    ((t.doStep now dt).2 = true → (t.doStep now dt).1.lastStep = now + r ∧ (t.doStep now dt).1.remaining = some 0) := by
+  have h1 : ¬ (t.start > now + dt) := by omega
+  simp only [TaskS.doStep, hs, hr, hl]
+  simp [h1, hpos]
+  by_cases h : r - (now + dt - now) ≤ 0
+  · simp [h]; omega
+  · simp [h]; omega
+
 end ErdosVerif.C03
